@@ -22,11 +22,11 @@ added; each of them is described in §8.1.
 notes='''
 Notes. {NROWS} seed × check runs; {NCAUGHT} report a violation of the seeded change (C12-1 only through
 C01's progress clause, as the rows say; C03-7 was at first reported only by C11's readability clause and
-is now also caught by C03's own send clause, see §8.1); C12-7 is not caught. The eight `-7` seeds for
-C04 C05 C13 C14 C15 C18 C19 C20 come from a last wave of fresh sub-agents (one change each, same
+is now also caught by C03's own send clause, see §8.1); C12-7 is not caught. The `-7` seeds for
+C02 C04 C05 C08 C09 C11 C13 C14 C15 C18 C19 C20 come from a last wave of fresh sub-agents (one change each, same
 instructions); they were checked one per private lane with `tools/seed_lane.sh` (scratch worktree of
 `/repo` plus a copy of the harness, so `/repo` itself is untouched) while sixteen builds shared the
-machine (load > 150), and all eight were caught by the quick check as it stood, without any change
+machine (load > 150), and all of them were caught by the quick check as it stood, without any change
 to the engines. In their `verify.json` the suite line shows `interop_datachannel_stress_test` failing
 next to the known failure: that test has a 30 s wall-clock deadline and timed out under that load in
 every lane, whatever the change; it was re-run alone with each change applied (`stress_test_rerun` in
